@@ -652,6 +652,10 @@ def run_markup(ctx, model_ok=True):
                                        'config': canon_cfg(cfg), 'impl': repr(im)[:300], 'model': repr(mo)[:300]})
         elif mo[0] == 'ok' and mo[1] != im[1]:
             # the model covers every converter feature (markup.href included): the output text must agree as well
+            if 'Lorem' in mo[1]:
+                # a lorem name assembled by an escape / a variable (`lor\\em5`): the model wrote its marker for the random text
+                ctx.cover('markup:not-compared(lorem, seen in the model output)')
+                continue
             text_diff += 1
             if text_diff <= 5:
                 cfg = cs.cfgs[ci]
